@@ -125,6 +125,12 @@ def run(ctx):
             for segs in seglist:
                 cases.append((segs, lim))
                 meta.append(("edge", pos, delta))
+    # a line that never ends, in every position, in small reads: must be rejected, not buffered for ever
+    for lim in lims[1:] if ctx.quick else lims:
+        for s, pos in H.unterminated_streams(lim):
+            for step in (7, 64):
+                cases.append(([s[i:i + step] for i in range(0, len(s), step)], lim))
+                meta.append(("unterminated", pos, 1))
     model = H.model_run_many(exe, cases)
     ran = 0
     for (segs, lim), m, (kind, pos, delta) in zip(cases, model, meta):
@@ -147,7 +153,10 @@ def run(ctx):
             why = retained_ok(im, lim, len(segs[-1]))
             if why:
                 ctx.violation(case, "request parser retains too much: " + why)
-        if pos is not None:
+        if kind == "unterminated":
+            if not im["outcome"].startswith("ERR") and not any(m["exc"] for m in im["msgs"]):
+                ctx.violation(case, f"an unterminated {pos} of {len(s)} bytes is buffered instead of rejected: {im['state']}")
+        elif pos is not None:
             rejected = im["outcome"].startswith("ERR")
             if delta > 0 and not rejected:
                 ctx.violation(case, f"limit not enforced: {pos} exceeds its limit by one and is accepted ({im['outcome']})")
@@ -155,6 +164,8 @@ def run(ctx):
                 ctx.violation(case, f"limit too strict: {pos} at limit{delta:+d} is rejected one-shot ({im['outcome']})")
     ctx.sample({"suite": "request", "lim": list(cases[-1][1]), "segs": [x.hex()[:80] for x in cases[-1][0][:3]]})
     ctx.close_suite("request-parser-model", ran)
+    import logging
+    logging.getLogger("aiohttp.server").setLevel(logging.CRITICAL)
 
     # response parser: exception classes, limits, retained bytes (implementation only)
     nr = 500 if ctx.quick else 8000
@@ -196,6 +207,35 @@ def run(ctx):
                     if delta <= 0 and rejected and len(segs) == 1:
                         ctx.violation(case, f"response limit too strict: {pos} at limit{delta:+d} rejected one-shot ({im['outcome']})")
 
+    # lax response parser: folded field values add up against max_field_size; unterminated lines
+    for lim in lims[1:]:
+        ml, mf, mh, _ = lim
+        piece = b"v" * (mf // 2)
+        folded = b"HTTP/1.1 200 OK\r\nX-F: " + piece + b"\r\n " + piece + b"\r\n " + piece + b"\r\nContent-Length: 0\r\n\r\n"
+        chunked_folded = (b"HTTP/1.1 200 OK\r\nTransfer-Encoding: chunked\r\n\r\n0\r\nX-F: " + piece + b"\r\n " + piece
+                          + b"\r\n " + piece + b"\r\n\r\n")
+        for name, s in (("folded-field", folded), ("folded-trailer", chunked_folded)):
+            for segs in ([s], [s[i:i + 5] for i in range(0, len(s), 5)]):
+                im = H.impl_run_response(segs, lim, eof=False)
+                ctx.case((s, lim, len(segs), "resp-fold"), nontrivial=True)
+                ctx.count("resp-edge:" + name)
+                if not (im["outcome"].startswith("ERR") or any(m["exc"] for m in im["msgs"])):
+                    ctx.violation({"parser": "response", "lim": list(lim), "segs": [x.hex() for x in segs], "pos": name, "delta": 1},
+                                  f"response limit not enforced: {name} of {3 * (mf // 2)} bytes accepted with max_field_size={mf}")
+        pad = b"z" * (max(ml, mf) * 3 + 40)
+        for name, s in (("status-line", b"HTTP/1.1 200 " + pad), ("field", b"HTTP/1.1 200 OK\r\nX: " + pad),
+                        ("trailer", b"HTTP/1.1 200 OK\r\nTransfer-Encoding: chunked\r\n\r\n0\r\nX-T: " + pad),
+                        ("chunk-size", b"HTTP/1.1 200 OK\r\nTransfer-Encoding: chunked\r\n\r\n" + b"0" * len(pad))):
+            segs = [s[i:i + 9] for i in range(0, len(s), 9)]
+            im = H.impl_run_response(segs, lim, eof=False)
+            ctx.case((s, lim, len(segs), "resp-unterminated"), nontrivial=True)
+            ctx.count("resp-unterminated:" + name)
+            case = {"parser": "response", "lim": list(lim), "segs": [x.hex() for x in segs], "pos": name, "delta": 1}
+            if im["outcome"].startswith("OK"):
+                why = retained_ok(im, lim, 9)
+                if why or not any(m["exc"] for m in im["msgs"]):
+                    ctx.violation(case, f"response parser buffers an unterminated {name} without bound: {why or im['state']}")
+
     # server level: parse errors become a 400 and the connection is closed; nothing escapes
     from harness.common.loop import VLoop
     loop = VLoop()
@@ -203,10 +243,11 @@ def run(ctx):
     try:
         ns = 60 if ctx.quick else 600
         tried = 0
-        for i in range(ns * 4):
-            if tried >= ns:
+        directed = [(x, "non-utf8") for x in H.non_utf8_streams()]
+        for i in range(ns * 4 + len(directed)):
+            if tried >= ns + len(directed):
                 break
-            s, cls = H.mutate_smuggling(rng, H.gen_request(rng))
+            s, cls = directed[i] if i < len(directed) else H.mutate_smuggling(rng, H.gen_request(rng))
             one = H.impl_run([s], H.DEFAULT_LIM)
             if not one["outcome"].startswith("ERR"):
                 continue
